@@ -289,7 +289,7 @@ func (x *Exec) lookupLocal(fr *Frame, name string, at *ssa.BasicBlock, st *State
 				continue
 			}
 		}
-		dom := c.blk == at && c.idx < 0 || c.blk != at && c.blk.Dominates(at)
+		dom := c.blk == at && (c.idx < 0 || x.lookupAtEnd) || c.blk != at && c.blk.Dominates(at)
 		if !dom {
 			continue
 		}
